@@ -6,6 +6,26 @@ pid = sys.argv[1]
 n = int(sys.argv[2]) if len(sys.argv) > 2 else 3
 p = [json.loads(l) for l in open(os.path.join(V, 'properties.jsonl'))]
 p = [x for x in p if x['id'] == pid][0]
+import glob
+round2 = '--round2' in sys.argv
+suffix = 'b' if round2 else ''
+avoid = ''
+if round2:
+    prev = []
+    for m in sorted(glob.glob(os.path.join(V, 'refactorings', pid + '_r*', 'meta.json'))):
+        d = json.load(open(m))
+        prev.append('  - %s [%s] (%s)' % (d.get('title', ''), d.get('kind', ''), ', '.join(d.get('files', []))))
+    avoid = ("\nALREADY DONE by an earlier round (do NOT repeat these or close variants; pick other code sites and other KINDS):\n" + '\n'.join(prev) +
+             "\nKinds to prefer in this round (they are the ones most likely to trip over-eager tooling, while being perfectly legitimate): "
+             "adding a defensive copy where a fresh array was returned anyway, or removing a redundant copy of an array the function itself "
+             "just created; normalising arguments at entry (np.asarray / np.atleast_1d / float()) where all accepted inputs already behave "
+             "the same; adding a cache or memo that is invalidated exactly when its inputs change (so no stale answer is ever returned); "
+             "replacing an in-place operation on an array the function owns (created inside it) by an out-of-place one or the reverse; "
+             "changing the order in which independent sub-results are computed, or the iteration order over a dict/set whose order cannot "
+             "matter; changing a private container type (list <-> tuple <-> ndarray, dict <-> two lists); adding an early return for a trivial "
+             "case that yields the identical result (same type, dtype and shape); adding logging/debug output; re-associating float "
+             "arithmetic (last-bits differences only); replacing a Python loop by a comprehension/generator; changing exception MESSAGE text; "
+             "consuming random numbers in exactly the same order and amount (never change the RNG stream).\n")
 print(f"""You are a careful maintainer of the Python package icecube/skyllh (a framework for unbinned likelihood analyses of neutrino
 data). Somebody else has built verification tooling for the package, which you know nothing about and must not look for (do not read
 anything under /verif). To evaluate whether that tooling raises FALSE alarms, you produce behaviour-preserving refactorings.
@@ -35,8 +55,9 @@ types) or of log output. Do NOT change public names, signatures, return types, e
 rounding in the last few bits; do NOT fix or introduce bugs; do not touch the tests. Make the {n} refactorings different in kind and
 site; at least one should touch private state (rename/reshape a private attribute or cache) if the area has any, and at least one
 should change floating-point evaluation order if the area computes floats.
+{avoid}
 
-For each refactoring k = 1..{n} create /tmp/ref_{pid}/{pid}_r<k>/ with
+For each refactoring k = 1..{n} create /tmp/ref_{pid}/{pid}_r<k>{suffix}/ with
   patch.diff  (`git -C /tmp/rw_{pid} diff` for this change alone against HEAD),
   equiv.py    (a small program that exercises the refactored code on a spread of inputs incl. edge cases and prints a canonical
                dump of the results — floats printed with 10 significant digits — so that its output is IDENTICAL on the clean and the
@@ -44,5 +65,5 @@ For each refactoring k = 1..{n} create /tmp/ref_{pid}/{pid}_r<k>/ with
   meta.json   {{"property": "{pid}", "title": "<one line>", "kind": "<what kind of refactoring>", "files": ["skyllh/..."],
                 "why_equivalent": "<argument that public behaviour is preserved>", "ran": ["<commands and outcomes>"]}}
 After saving each patch restore the worktree (`git -C /tmp/rw_{pid} checkout -- .`); each patch must apply on its own with `git apply`.
-Verify for each: equiv.py output identical clean vs patched (diff the two outputs), test-suite 174 passed when patched. Leave the
+Verify for each: equiv.py output identical clean vs patched (diff the two outputs), test-suite 174 passed when patched. Never use `git stash` (the stash is shared between all worktrees of the repository and other people work in theirs). Leave the
 worktree clean. Final message: one line per refactoring (what, where).""")
